@@ -67,7 +67,7 @@ def campaign(tier, seed):
             return st.load()
         t0 = time.time()
         build_harness()
-        maxlen, pairs, nrand, rlen = (5, 3, 3000, 16) if tier == "quick" else (7, 4, 40000, 28)
+        maxlen, pairs, nrand, rlen = (5, 3, 8000, 16) if tier == "quick" else (7, 4, 60000, 28)
         cfg = st.path("MC_Lower.cfg")
         open(cfg, "w").write(
             "SPECIFICATION Spec\nCONSTANTS MaxLen = %d\n MaxDepth = 2\n MaxPlan = 2\n MaxLenPairs = %d\n"
@@ -127,7 +127,7 @@ def campaign(tier, seed):
                 relevant["C04"] += 1
                 relevant["C05"] += 1
         res = {"records": recs, "states": mc["distinct"] + tv["distinct"],
-               "transitions": mc["generated"] + tv["generated"], "traces": hstat["cases"] - hstat["skipped"],
+               "transitions": mc["generated"] + tv["generated"], "traces": hstat["cases"] - hstat["skipped"],   # incl. derived second-encode cases
                "samples": samples, "relevant": relevant,
                "detail": {"model_checking": {"MaxLen": maxlen, "MaxDepth": 2, "MaxPlan": 2, "MaxLenPairs": pairs,
                                              "cases": n_mc, "distinct": mc["distinct"]},
@@ -142,7 +142,7 @@ def case_of(tier, tr):
     with open(os.path.join(WORK, "stage", "lower-" + tier, "cases.ndjson")) as f:
         for l in f:
             c = json.loads(l)
-            if c["id"] == tr:
+            if c["id"] == tr % 10000000:      # derived second-encode cases carry id + 10^7
                 return c
     return None
 
